@@ -49,7 +49,14 @@ type KVTermCount struct {
 
 // NewIndex create new key value index
 func NewIndex(kv kvi.KVInterface) *KVIndex {
-	return &KVIndex{KV: kv, Fields: make(map[string][]string)}
+	idx := &KVIndex{KV: kv, Fields: make(map[string][]string)}
+	// the registry of indexed fields decides what AddDocTx indexes: rebuild it
+	// from the persisted field keys when an existing store is opened
+	fields := idx.ListFields()
+	for _, f := range fields {
+		idx.Fields[f] = strings.Split(f, ".")
+	}
+	return idx
 }
 
 // AddField add new field to be indexed
